@@ -12,4 +12,5 @@ func ruleC08(prog *Program, rep *Report) {
 	// state shared between goroutines
 	ruleEntryParity(prog, rep)
 	ruleSharedExpr(prog, rep)
+	ruleCacheRead(prog, rep) // a plan looked up in the wrong cache makes a result depend on what other goroutines encoded first
 }
